@@ -13,15 +13,15 @@ Check (patched_depth_bounded : forall x : input, (depth_of true x <= 4 + allowan
 Check (original_depth_unbounded : forall c : nat,
   (exists ms mlast rows, allowance (InIter ms mlast rows) = O /\ (depth_of false (InIter ms mlast rows) > c)%nat) /\
   (exists txt, allowance (InQuoted txt) = O /\ (depth_of false (InQuoted txt) > c)%nat) /\
-  (exists names, forall sel sel0, allowance (InGraph sel sel0 0 names) = O /\
-                                  (depth_of false (InGraph sel sel0 0 names) > c)%nat) /\
+  (exists names, forall sel, allowance (InGraph sel 0 names) = O /\
+                             (depth_of false (InGraph sel 0 names) > c)%nat) /\
   (exists l, allowance (InList l) = O /\ (depth_of false (InList l) > c)%nat) /\
   (exists cells, allowance (InMark cells) = O /\ (depth_of false (InMark cells) > c)%nat)).
 (* the patches do not change any result (rows and matcher calls, bytes, solutions, tokens, marks) *)
 Check (patches_preserve_results :
   (forall ms mlast rows, res (iter_all_c true ms mlast rows) = res (iter_all_c false ms mlast rows)) /\
   (forall txt, res (quoted_string_loop_c txt) = res (quoted_string_rec_c txt)) /\
-  (forall sel sel0 dsel names, res (graph_query_c true sel sel0 dsel names) = res (graph_query_c false sel sel0 dsel names)) /\
+  (forall sel dsel names, res (graph_query_c true sel dsel names) = res (graph_query_c false sel dsel names)) /\
   (forall l, l <> JNil -> res (pop_loop_c l) = res (pop_rec_c l)) /\
   (forall i, res (conv_loop_c i) = res (conv_rec_c i)) /\
   (forall cells, res (mark_loop_c cells) = res (mark_rec_c cells))).
@@ -50,19 +50,20 @@ Check (quoted_string_rec_refuted : forall c : nat, exists txt,
   (depth (quoted_string_rec_c txt) > c)%nat).
 
 (* ---- (c) GRAPH ?g --------------------------------------------------------------------------- *)
-Check (graph_query_erasure : forall looped sel sel0 dsel names,
-  res (graph_query_c looped sel sel0 dsel names) = graph_query_p sel sel0 names).
-Check (graph_query_loop_depth : forall sel sel0 dsel names,
-  (depth (graph_query_c true sel sel0 dsel names) <= 2 + dsel)%nat).
+Check (graph_query_erasure : forall looped sel dsel names,
+  res (graph_query_c looped sel dsel names) = graph_query_p sel names).
+Check (graph_query_loop_depth : forall sel dsel names,
+  (depth (graph_query_c true sel dsel names) <= 3 + dsel)%nat).
 Check (graph_rec_depth_lower : forall sel dsel names,
   (S (length names) <= depth (graph_rec_c sel dsel names))%nat).
 Check (graph_rec_depth_upper : forall sel dsel names,
   (depth (graph_rec_c sel dsel names) <= S (length names) + dsel)%nat).
 Check (graph_rec_refuted : forall c : nat, exists names,
-  forall sel sel0 dsel, (depth (graph_query_c false sel sel0 dsel names) > c)%nat).
+  forall sel dsel, (depth (graph_query_c false sel dsel names) > c)%nat).
 Check (chain_drop_depth : forall ls, depth (it_drop_c (chain_of ls)) = S (length ls)).
-Check (chain_next_exhausted_depth : forall ls, Forall (fun l => l = []) ls ->
-  depth (it_next_c (chain_of ls)) = S (length ls) /\ fst (res (it_next_c (chain_of ls))) = None).
+Check (chain_next_exhausted_depth : forall ls, Forall (fun gl => snd gl = []) ls ->
+  (S (length ls) <= depth (it_next_c (chain_of ls)) <= S (S (length ls)))%nat /\
+  fst (res (it_next_c (chain_of ls))) = None).
 
 (* ---- (d) JSON-LD lists ---------------------------------------------------------------------- *)
 Check (populate_list_erasure : forall l, l <> JNil ->
@@ -114,13 +115,15 @@ Proof. vm_compute. reflexivity. Qed.
 Example ex_quoted_result : res (quoted_string_loop_c [97; 34; 10; 98; 92]) = [97; 92; 34; 92; 110; 98; 92; 92].
 Proof. vm_compute. reflexivity. Qed.
 Example ex_graph_rec :
-  depth_of false (InGraph (fun g => [[g; 7]]) [] 0 (map N.of_nat (seq 0 300))) = 301%nat.
+  depth_of false (InGraph (fun g => [(None, [7])]) 0 (map N.of_nat (seq 0 300))) = 302%nat.
 Proof. vm_compute. reflexivity. Qed.
 Example ex_graph_loop :
-  depth_of true (InGraph (fun g => [[g; 7]]) [] 0 (map N.of_nat (seq 0 300))) = 2%nat.
+  depth_of true (InGraph (fun g => [(None, [7])]) 0 (map N.of_nat (seq 0 300))) = 3%nat.
 Proof. vm_compute. reflexivity. Qed.
+(* the inner pattern may bind the GRAPH variable itself: only the agreeing solutions survive *)
 Example ex_graph_result :
-  res (graph_query_c true (fun g => [[g; 7]; [g; 8]]) [] 0 [1; 2]) = [[1; 7]; [1; 8]; [2; 7]; [2; 8]].
+  res (graph_query_c true (fun g => [(None, [7]); (Some 2, [8]); (Some g, [9])]) 0 [1; 2]) =
+  [[1; 7]; [1; 9]; [2; 7]; [2; 8]; [2; 9]].
 Proof. vm_compute. reflexivity. Qed.
 Example ex_list_rec : depth_of false (InList (jl_repeat 300)) = 301%nat.
 Proof. vm_compute. reflexivity. Qed.
